@@ -195,6 +195,8 @@ def is_valid_time(val):
     try:
         if not_match_re('TM', val):
             raise IsValidError
+        if len(val) < 4:  # HHMM is the shortest time
+            raise IsValidError
 
         if val[0:2] > '23' or val[2:4] > '59':  # check hour, minute segment
             raise IsValidError
